@@ -319,6 +319,22 @@ example : determinedC Dyn.exC08calc 6 = true ∧ denClosureC Dyn.exC08calc 6 = [
    (C08_monitors_hold_dyn _ _ (Or.inr (autoRun_preach (by decide) false true 800 _ PReach.init)) 6 (by decide +kernel)
      true (fun _ => ⟨by decide +kernel, by decide +kernel, by decide +kernel⟩)).2⟩
 
+/-- non-vacuity of the failed-delivery clause (`delivOf`, `calcResFail`): in `Dyn.exC08fail` the calc task `0` fails
+    during its execution after having returned `task_dep: [2]`, `calc_dep: [3]`.  The denotation lets it deliver them
+    (closure `[1, 0, 3, 2]`, `2` and `3` executed, `1` unmet), the complete run with two worker threads does report
+    `2` and `3` as executed, and the monitor theorem applies to it. -/
+example : determinedC Dyn.exC08fail 4 = true ∧ denClosureC Dyn.exC08fail 4 = [1, 0, 3, 2] ∧
+    denFC Dyn.exC08fail 4 0 = .fail .failed ∧ denFC Dyn.exC08fail 4 1 = .fail .unmet ∧
+    denFC Dyn.exC08fail 4 2 = .ok ∧ denFC Dyn.exC08fail 4 3 = .ok ∧
+    ∃ s, PReach Dyn.exC08fail s ∧ (s.rpc = .halted ∧ s.halt = .none ∧ s.stop = false) ∧
+      Ev.success 2 ∈ s.events ∧ Ev.success 3 ∈ s.events ∧ Ev.failure 1 .unmet ∈ s.events ∧
+      monC08DenC Dyn.exC08fail 4 (trace Dyn.exC08fail s) (exitCode s) true = true :=
+  ⟨by decide +kernel, by decide +kernel, by decide +kernel, by decide +kernel, by decide +kernel, by decide +kernel,
+   _, autoRun_preach (by decide) false true 800 _ PReach.init,
+   ⟨by decide +kernel, by decide +kernel, by decide +kernel⟩, by decide +kernel, by decide +kernel, by decide +kernel,
+   (C08_monitors_hold_dyn _ _ (Or.inr (autoRun_preach (by decide) false true 800 _ PReach.init)) 4 (by decide +kernel)
+     true (fun _ => ⟨by decide +kernel, by decide +kernel, by decide +kernel⟩)).2⟩
+
 /-- non-vacuity of `C08_confluence` on dynamic edges: `Dyn.exC08calc` has a complete run with two worker threads and a
     complete serial run; in the parallel run the twice-delivered `5` is executed, `1` is reported `unmet` because the
     delivered task_dep `2` failed, and the exit code is ERROR -/
